@@ -50,7 +50,7 @@ class C13(CtxCheck):
         return [
             ("op", idx, ("add", "Ad", True, f"v:c{idx}:Ad:{n}", "m")),
             ("op", idx, ("add", "Bd", False, f"v:c{idx}:Bd:{n}", "m")),
-            ("op", idx, ("addf", "Ax", "sync", f"f:c{idx}:Ax:{n}", "m")),
+            ("op", idx, ("addf", "Ax", "async", f"f:c{idx}:Ax:{n}", "m")),
             ("op", idx, ("get", "nowait", "A", "default", False)),
             ("op", idx, ("get", "async", "A", "x", False)),
             ("op", idx, ("get", "nowait", "B", "default", True)),
